@@ -129,7 +129,8 @@ CHECKS = {
              "layer completes for every DT in 0.5..500 K and DELTA_P in 0.1..5 GPa (finite-domain symbolic values through the real loader) and whichever "
              "single documented QHA setting the user leaves out (finite-domain symbolic index, real apply_default_config + loader); no undefined value "
              "either when the heat capacity handed over is exactly 0 at 0 K; an interpolation order "
-             "spelled 3.0 (a JSON integer) runs like 3 (twin).",
+             "spelled 3.0 (a JSON integer) runs like 3 (twin). Known finding (concrete twin on the shipped diopside data): krogh with every volume a node "
+             "gives +inf frequencies and NaN moduli on the volume margin.",
         note="The configuration sweep 'every schema-valid configuration x interpolator completes' is library behaviour (qha, scipy, LAPACK) "
              "and outside; numpy.exp is modelled by the listed axioms (each a true fact of a faithful exp); eigen-frame real-ness is a "
              "concrete check over the 15 keys.",
@@ -217,7 +218,7 @@ CHECKS = {
              "numbers); required sections, closed objects, shipped files; YAML and JSON spellings of every documented field with delicate values "
              "(numeric-looking strings, integral floats, booleans, null) load to the written object and validate alike; a second "
              "apply_default_config call in one process is unaffected by the first (CrossHair, symbolic leaves); grid steps (DT, DELTA_P, the two sampling "
-             "steps) must be positive and DT_SAMPLE / static_only are typed; a user section over a plain "
+             "steps) must be positive and DT_SAMPLE / static_only are typed; non-finite numbers (nan, +-inf) are rejected for every documented numeric field; a user section over a plain "
              "default value (and the reverse) wins as a whole.",
         note="Skeleton family is bounded (depth<=3, seeded); dict-vs-leaf clashes excluded. The schema compiler covers the keyword subset "
              "the packaged schema uses and is cross-validated against jsonschema on every solver witness.",
@@ -289,7 +290,7 @@ CHECKS = {
         technique="symbolic execution of the real readers / writer on files whose numeric fields are opaque tokens (module-global `float` "
                   "rebound to a token->symbol map, f-string formatting prints tokens); z3 equality of every field of the parsed objects with "
                   "the symbol written at that place",
-        text="Partial (structure, for all numeric contents at once): read_elast_data returns the reference volume, count, cell mass, every "
+        text="Partial (structure, for all numeric contents at once): read_elast_data returns the reference volume, count, cell mass (whatever the volume column is labelled: V, V0, V_bohr3 ...), every "
              "row's volume, every component under its canonical Voigt key whatever prefix / case / 2- or 4-index spelling, and the lattice "
              "block (or none); write_energy followed by read_energy returns the same counts, P/V/E and every frequency at its place, also when "
              "the same path held (and was read as) other data sets before (bounded history of 4-6 steps); the `cij fill` command re-emits the "
